@@ -135,8 +135,8 @@ CHECKS = {
             "that tracks lambda bodies (LAMBDA, LAMBDA_REC, pushed literals nested in Pair/Some/Left/Right/list/Elt); "
             "reject iff the statement's rule says so, in both directions.",
             "Lambda_rec data literals are not a registered primitive in pytezos (match fails for an unrelated reason) "
-            "and are excluded; CREATE_CONTRACT's inner script is a separate contract and never contains restricted "
-            "instructions in generated cases.", "9/C32"),
+            "and are excluded; CREATE_CONTRACT's inner script is a separate contract: it may itself use the restricted "
+            "instructions (generated), SELF is not generated there.", "9/C32"),
     "C09": ("exhaustive over table rows + hypothesis payloads/corruptions vs own base58check and prefix registry",
             "Every table row: extremes (=> all payloads by monotonicity) and random payloads round-trip with the "
             "documented prefix/length and equal the reference encoding; corrupted strings (valid-checksum variants "
